@@ -56,10 +56,43 @@ def run(ctx):
     SIZES_BIG = [131071 - 9, 131071 - 8, 131072 - 9 + 1, 131072, 2 * 131071 - 9, 2 * 131071 - 8, 3 * 131072 + 5, 200000]
 
     def new_conn(compressed):
+        """A connection in the v5 segment state, reached the way a real one gets there: directly, or through the driver's own
+        handling of the server's answer to STARTUP (READY, or AUTHENTICATE followed by an AUTH_RESPONSE / AUTH_SUCCESS exchange that
+        already travels in segments)."""
         conn = BareConnection('127.0.0.1', 9042, protocol_version=V)
+        path = rng.choice(['direct', 'ready', 'auth'])
+        ctx.count("connections_entering_segment_mode_via_" + path)
+        if path == 'direct':
+            if compressed:
+                conn.compressor, conn.decompressor = _comp, _decomp
+            conn._enable_checksumming()
+            return conn
+        conn._compressor = None                                             # what _handle_options_response leaves behind ...
         if compressed:
-            conn.compressor, conn.decompressor = _comp, _decomp
-        conn._enable_checksumming()
+            conn._compressor, conn.decompressor = _comp, _decomp          # ... when a compression was agreed on
+        if path == 'ready':
+            conn._handle_startup_response(P.ReadyMessage())
+            return conn
+        from cassandra.auth import PlainTextAuthProvider
+        conn.authenticator = PlainTextAuthProvider('u', 'p').new_authenticator('127.0.0.1')
+        conn._handle_startup_response(P.AuthenticateMessage('org.apache.cassandra.auth.PasswordAuthenticator'))
+        sent = b''.join(conn.sent)
+        del conn.sent[:]
+        try:
+            segs = SG.decode_stream(sent, compressed, (lambda w, u: zlib.decompress(w)) if compressed else None)
+            reqs = SG.frames_from_segments(segs)
+            p = F.parse_request(reqs[0]) if reqs else None
+            if p is None or p['op'] != 'AUTH_RESPONSE' or len(reqs) != 1:
+                raise SG.SegmentError("expected one AUTH_RESPONSE, found %r" % ([F.parse_request(r)['op'] for r in reqs],))
+        except (SG.SegmentError, F.FrameError) as e:
+            ctx.violation("outgoing-segments-malformed", "independent decoder rejects the AUTH_RESPONSE the driver sent after AUTHENTICATE "
+                          "(negotiated compression: %s): %s" % (compressed, e), {"compressed": compressed, "bytes": sent[:64]})
+            return conn
+        fr = F.response(V, p['stream'], 'AUTH_SUCCESS', F.body_auth_success(None))
+        conn.feed(SG.encode_stream([fr], compressed, (lambda b: zlib.compress(b, 1)) if compressed else None, (lambda: False), (lambda i: True))[0])
+        if conn.is_defunct or not conn.connected_event.is_set():
+            ctx.violation("spurious-failure-on-valid-stream", "the AUTH_SUCCESS segment after AUTHENTICATE was not accepted (negotiated compression: "
+                          "%s): defunct=%s last_error=%r" % (compressed, conn.is_defunct, conn.last_error), {"compressed": compressed})
         return conn
 
     def build(nmsg, big_p, compressed):
